@@ -583,7 +583,9 @@ class Explorer:
                 known = {"None": 0, "Some": 1, "Ok": 0, "Err": 1}
                 if short in known:
                     return BV(z3.BitVecVal(known[short], 64), 64, True)
-            return fresh_of_type("isize", "discr", False)
+            dv = fresh_of_type("isize", "discr", False)
+            st.events.append(("discr", frame.func.name, m.group(1).strip(), dv))
+            return dv
         if re.fullmatch(r"[A-Za-z_][\w:<>, &']*::(None|Some|Ok|Err)", t) and t.endswith("None"):
             return Adt(t, [])
         # references
